@@ -37,6 +37,8 @@ func main() {
 		locksMain(os.Args[2:])
 	case "member":
 		memberMain(os.Args[2:])
+	case "balance":
+		balanceMain(os.Args[2:])
 	case "webhook":
 		webhookMain(os.Args[2:])
 	case "member-stress":
